@@ -109,6 +109,11 @@ pub enum DStep {
     /// distinct peers that were registered for that document, a policy that was set for it (or
     /// the default), a capability that was imported for it, nothing for documents it does not list.
     CrashEnd { l2: bool },
+    /// C18, file-backed stores: the database file is rewritten the way iroh-docs 0.94..=0.98
+    /// (redb 2.x) wrote it - the tuple-keyed tables carry the old type tag - with or without the
+    /// two derived tables, and opened through `Store::persistent` (format conversion, then the
+    /// populate-if-empty migrations).
+    OldFormat { keep_heads: bool, keep_by_key: bool },
 }
 
 /// A read-only document with a crafted id next to a real one in byte order (document index
@@ -266,7 +271,8 @@ impl Scenario for Docs {
         let g = GenCfg { docs: ndocs, authors: if matches!(self.mode, Mode::Migrate | Mode::Remove) { crate::world::gen_author_count(rng, 3) } else { rng.range(1, 3) as u8 }, max_key_len: 3, ts_values: 6, marker_pct: 20, contents: 3 };
         let backend = match rng.below(10) {
             0..=1 => Backend::Mem,
-            2..=8 => Backend::Disk,
+            2..=6 => Backend::Disk,
+            7..=8 if self.mode != Mode::Migrate => Backend::Disk,
             _ => Backend::File,
         };
         let n = rng.urange(5, tier.pick(30, 40));
@@ -310,6 +316,9 @@ impl Scenario for Docs {
             let d = rng.below(ndocs as u64) as u8;
             // settings operations may address a crafted neighbour; writes never do
             let da = pick_doc(rng);
+            if backend == Backend::File && self.mode != Mode::Migrate && self.mode != Mode::Remove && rng.chance(1, 12) {
+                steps.push(DStep::OldFormat { keep_heads: rng.chance(1, 2), keep_by_key: rng.chance(1, 2) });
+            }
             let s = match rng.weighted(&weights) {
                 0 => DStep::ImportCap { d: da, write: rng.chance(1, 2) },
                 1 => DStep::Open { d: da },
@@ -337,6 +346,7 @@ impl Scenario for Docs {
                 }
                 7 => DStep::Restart,
                 8 => DStep::FlushCrash { l2: rng.chance(1, 2) },
+                9 if backend == Backend::File => DStep::OldFormat { keep_heads: rng.chance(1, 3), keep_by_key: rng.chance(1, 3) },
                 9 => DStep::DropDerived { by_key: rng.chance(2, 3), heads: rng.chance(2, 3) },
                 10 => DStep::Reopen { times: rng.range(1, 4) as u8 },
                 _ => DStep::Observe,
@@ -374,7 +384,7 @@ impl Scenario for Docs {
             });
             out.push(p);
         }
-        if plan.backend != Backend::Mem && !plan.steps.iter().any(|s| matches!(s, DStep::Restart | DStep::FlushCrash { .. } | DStep::DropDerived { .. } | DStep::Reopen { .. })) {
+        if plan.backend != Backend::Mem && !plan.steps.iter().any(|s| matches!(s, DStep::Restart | DStep::FlushCrash { .. } | DStep::DropDerived { .. } | DStep::Reopen { .. } | DStep::OldFormat { .. } | DStep::CrashEnd { .. } | DStep::RemoveCrash { .. })) {
             let mut p = plan.clone();
             p.backend = Backend::Mem;
             out.push(p);
@@ -703,6 +713,48 @@ impl Docs {
                 }
                 DStep::Observe => {
                     self.check_all(plan, sut.store(), &m, si, cx)?;
+                }
+                DStep::OldFormat { keep_heads, keep_by_key } => {
+                    if sut.backend != Backend::File {
+                        continue;
+                    }
+                    let before: Vec<Obs> = (0..m.len() as u8).map(|d| observe(sut.store(), plan.ns(d)).map_err(harness)).collect::<Res<_>>()?;
+                    crate::sut::rewrite_in_old_format(&mut sut, *keep_heads, *keep_by_key)?;
+                    for dm in m.iter_mut() {
+                        dm.open = false;
+                    }
+                    cx.fault("database_file_in_redb_2_format");
+                    cx.ev("old-format", format!("{keep_heads} {keep_by_key}"));
+                    // each property judges what it promises across a reopen: C18 entries, heads and
+                    // the key-ordered query; C17 the peer list; C15 the policy; C07 the capability
+                    for (d, b) in before.iter().enumerate() {
+                        let a = observe(sut.store(), plan.ns(d as u8)).map_err(harness)?;
+                        let ctx = format!("step {si}: after opening the same content from a database file in the redb 2.x format (heads table kept={keep_heads}, index kept={keep_by_key}) d{d}");
+                        match mode {
+                            Mode::Migrate => {
+                                let what = if a.entries != b.entries { Some(("other", "entries")) } else if a.heads != b.heads { Some(("heads", "heads")) } else if a.by_key != b.by_key { Some(("index", "key-ordered query")) } else { None };
+                                if let Some((class, what)) = what {
+                                    return Err(Violation::new(format!("rebuild/{class}-old-format"), format!("{ctx} answers differently: {what} ({} heads / {} index rows / {} entries, before {} / {} / {})", a.heads.len(), a.by_key.len(), a.entries.len(), b.heads.len(), b.by_key.len(), b.entries.len())));
+                                }
+                            }
+                            Mode::Peers | Mode::PeersClockFault => {
+                                if a.peers != b.peers {
+                                    return Err(Violation::new("mru/persist-old-format", format!("{ctx} lists {:?} useful peers, before {:?}: the list did not survive reopening", a.peers.as_ref().map(|p| p.len()), b.peers.as_ref().map(|p| p.len()))));
+                                }
+                            }
+                            Mode::Policy => {
+                                if a.policy != b.policy {
+                                    return Err(Violation::new("persist/policy-old-format", format!("{ctx} returns a different download policy than before")));
+                                }
+                            }
+                            Mode::Cap => {
+                                if a.cap != b.cap {
+                                    return Err(Violation::new("downgrade/reopen-old-format", format!("{ctx} lists capability {:?}, before {:?}", a.cap, b.cap)));
+                                }
+                            }
+                            Mode::Remove => {}
+                        }
+                    }
                 }
                 DStep::CrashEnd { l2 } => {
                     if sut.backend != Backend::Disk {
